@@ -382,7 +382,8 @@ def _construct(d, payload=None):
         return bigtree.dict_to_dag(rel)
     cols = _cols_for_rows(d["rows"])
     data = [[names[k], None if p is None else names[p]] + [a.get(c) for c in cols] for k, p, a in d["rows"]]
-    return bigtree.dataframe_to_dag(pd.DataFrame(data, columns=["child", "parent"] + cols))
+    from props._e_util import odd_index
+    return bigtree.dataframe_to_dag(odd_index(pd.DataFrame(data, columns=["child", "parent"] + cols), data))
 
 
 def _rej(e):
